@@ -34,7 +34,7 @@ func oracle(os optSet, input string, r scanRes) (vs [][2]string) {
 		return vs
 	}
 	// clause 4: gaps
-	g := &gapper{in: input, hash: os.o.HashComments, memo: map[string]bool{}}
+	g := &gapper{in: input, hash: os.o.HashComments, memo: map[string]bool{}, gocmd: os.o.GoCommand}
 	delim, off := ";", 0
 	if d, n, ok := headerDirective(input); ok {
 		delim, off = d, n
@@ -206,6 +206,7 @@ type gapper struct {
 	in   string
 	hash bool
 	memo map[string]bool
+	gocmd bool // GoCommand sets (round 5): a GO batch separator at a line start is a gap segment
 }
 
 // gap returns the delimiters in force after input[from:to] when that range can be read as a
@@ -244,6 +245,11 @@ func (g *gapper) gap(from, to int, delim string, first bool) []string {
 				rec(i+2+j+2, d, false)
 			}
 		}
+		if g.gocmd && lineStart && len(s) >= 2 && strings.EqualFold(s[:2], "GO") {
+			if n := goLen(g.in[i:]); n > 0 && i+n <= to {
+				rec(i+n, d, true)
+			}
+		}
 		if len(s) > 10 && strings.EqualFold(s[:10], "delimiter ") {
 			j := strings.IndexByte(s, '\n')
 			e := j + 1
@@ -268,4 +274,63 @@ func (g *gapper) gap(from, to int, delim string, first bool) []string {
 		out = append(out, d)
 	}
 	return out
+}
+
+// goLen: the length of the GO batch separator at the start of s as the scanner consumes it ("GO", then -
+// only if a blank follows - the rest of the line with its newline); 0 = no separator here.
+func goLen(s string) int {
+	if len(s) < 2 || !strings.EqualFold(s[:2], "GO") {
+		return 0
+	}
+	if len(s) == 2 {
+		return 2
+	}
+	if s[2] == ' ' {
+		if j := strings.IndexByte(s, '\n'); j >= 0 {
+			return j + 1
+		}
+		return len(s)
+	}
+	if s[2] == '\t' || s[2] == '\n' || s[2] == '\f' || s[2] == '\r' {
+		return 2
+	}
+	return 0
+}
+
+// unshiftGo (round 5; theorem C08_lossless_all_options_except): with GoCommand the reported Pos of a statement
+// that ends at a GO separator is its offset plus the length of that separator. Returns the statements with the
+// offsets corrected, how many were shifted, and false when some Text is neither at its Pos nor explained that way.
+func unshiftGo(in string, r scanRes) (scanRes, int, bool) {
+	out := r
+	out.stmts = nil
+	shifted := 0
+	for _, s := range r.stmts {
+		c := *s
+		if s.Pos >= 0 && s.Pos+len(s.Text) <= len(in) && in[s.Pos:s.Pos+len(s.Text)] == s.Text && goLen(in[skipWS(in, s.Pos+len(s.Text), len(in)):]) == 0 {
+			out.stmts = append(out.stmts, &c)
+			continue
+		}
+		found := false
+		for p0 := s.Pos; p0 >= 0 && p0 >= s.Pos-4096 && !found; p0-- {
+			if p0+len(s.Text) > len(in) || in[p0:p0+len(s.Text)] != s.Text {
+				continue
+			}
+			j := skipWS(in, p0+len(s.Text), len(in))
+			if n := goLen(in[j:]); n > 0 && p0+n == s.Pos {
+				c.Pos, found = p0, true
+				if n > 0 && p0 != s.Pos {
+					shifted++
+				}
+			}
+		}
+		if !found {
+			if s.Pos >= 0 && s.Pos+len(s.Text) <= len(in) && in[s.Pos:s.Pos+len(s.Text)] == s.Text {
+				found = true // at its Pos, a GO follows but belongs to the next (empty) statement
+			} else {
+				return r, 0, false
+			}
+		}
+		out.stmts = append(out.stmts, &c)
+	}
+	return out, shifted, true
 }
